@@ -30,6 +30,7 @@ pub const MAX_THREADS: usize = 80;
 pub const FAIR_LIMIT: u32 = 64;
 pub const EAGAIN: i32 = 11;
 pub const EINTR: i32 = 4;
+pub const ETIMEDOUT: i32 = 110;
 const STACK_WORDS: usize = 0x10000;
 
 type VC = [u32; MAX_THREADS];
@@ -93,6 +94,8 @@ struct Th {
     call_points: u32,
     /// parked by the harness until every other thread is blocked, yielded or done
     quiesce: bool,
+    /// the futex wait this thread is parked in was given a timeout: ETIMEDOUT is then a legal kernel answer
+    timed_wait: bool,
 }
 
 #[derive(Clone)]
@@ -580,6 +583,11 @@ pub fn spin_hint() {
 
 /// futex wait: 0 = woken, -EAGAIN = value differed, -EINTR = interrupted
 pub fn futex_wait(p: *mut u32, val: u32) -> i32 {
+    futex_wait_timed(p, val, false)
+}
+
+/// As `futex_wait`; `timed` = the caller passed a timeout, so the wait may also end with -ETIMEDOUT (a deviation).
+pub fn futex_wait_timed(p: *mut u32, val: u32, timed: bool) -> i32 {
     let Some(e) = ex() else {
         return if unsafe { *p } != val { -EAGAIN } else { 0 };
     };
@@ -603,7 +611,8 @@ pub fn futex_wait(p: *mut u32, val: u32) -> i32 {
         flag_violation("try-call-blocks", "a try_* call parked the thread in futex_wait".into());
     }
     e.th[t].status = Status::Blocked(l);
-    e.tr(|| format!("futex_wait L{l} expect {val:#x} -> blocked"));
+    e.th[t].timed_wait = timed;
+    e.tr(|| format!("futex_wait L{l} expect {val:#x} -> blocked{}", if timed { " (timed)" } else { "" }));
     generator::yield_with(());
     let e = ex().unwrap();
     if e.aborting {
@@ -879,6 +888,7 @@ fn run_execution(model: &dyn Model, pool: &mut Pool, e: &mut Exec) -> (End, Stri
             noblock: false,
             call_points: 0,
             quiesce: false,
+            timed_wait: false,
         });
     }
     e.locs.clear();
@@ -974,6 +984,10 @@ fn run_execution(model: &dyn Model, pool: &mut Pool, e: &mut Exec) -> (End, Stri
                     acts.push((t, 0));
                     opts.push([last_enabled as u8, 1, 0]);
                     acts.push((t, -EINTR));
+                    if e.th[t].timed_wait {
+                        opts.push([last_enabled as u8, 1, 0]);
+                        acts.push((t, -ETIMEDOUT));
+                    }
                 }
             }
         }
